@@ -62,10 +62,16 @@ LowerStoreAboveHandoff(r) ==
       H == Handoff(c.prod, c.start, c.stop, c.libok, c.lib, StateRequiredAt(StoreInits(UProg(r)), c.start), c.seg) IN
   \E i \in DOMAIN UProg(r) : LET m == UProg(r)[i] IN m.kind = "store" /\ m.init < H /\
      \E k \in DOMAIN m.inputs : m.inputs[k].k = "store" /\ ModByName(prog, m.inputs[k].v).init >= H
+\* the same mechanism seen on the scheduler's stages (logged with the run): a LOWER stage whose first segment lies beyond a
+\* segment a HIGHER stage must process never gets a unit there, and dependenciesCompleted waits for it forever
+LowerStageStartsLater(r) ==
+  "stages" \in DOMAIN r.obs /\
+  LET f == r.obs.stages.first  la == r.obs.stages.last IN
+  \E i \in DOMAIN f, j \in DOMAIN f : i < j /\ f[i] - 1 > f[j] /\ la[j] > f[j]
 FailSig(r) ==
   IF "filesBefore" \in DOMAIN r /\ SnapshotHole(r) THEN "request_failed:store_snapshot_hole"
   ELSE IF "filesBefore" \in DOMAIN r /\ OutputCachedButStoreSnapshotMissing(r) THEN "request_failed:output_cached_but_store_snapshot_missing"
-  ELSE IF LowerStoreAboveHandoff(r) THEN "request_failed:lower_stage_store_starts_above_handoff"
+  ELSE IF LowerStoreAboveHandoff(r) \/ LowerStageStartsLater(r) THEN "request_failed:lower_stage_store_starts_above_handoff"
   ELSE IF StoreStagesDroppedFromMatrix(r) THEN "request_failed:store_stages_dropped_stage_index_shift"
   ELSE "request_failed"
 
